@@ -55,7 +55,14 @@ class Pattern(Leaf):
 
     @cached_property
     def _nullable(self) -> bool:
-        return bool(self._regex.match(''))
+        if self._regex.match(''):
+            return True
+        # NOTE: a pattern of width zero (\b, a lookahead) matches empty inside
+        #   a text even when it does not match the empty text
+        try:
+            return re._parser.parse(self._regex.pattern).getwidth()[0] == 0  # type: ignore[attr-defined]
+        except Exception:
+            return False
 
     def __str__(self) -> str:
         return regexpp(self.pattern)[2:-1]
